@@ -6,6 +6,7 @@ Exit codes: 0 held (known findings are printed as KNOWN-FINDING lines), 1 violat
 
 from __future__ import annotations
 
+import glob
 import hashlib
 import importlib
 import json
@@ -143,8 +144,23 @@ def _run_shard(cid, shard, rundir, case_timeout, results, crashes, timeouts):
                 mark = None
         if ndone < len(remaining):
             bad = remaining[ndone]
-            rec = {"case": bad, "returncode": rc, "stderr_tail": err, "mark": mark,
+            sanlog = ""
+            for fn in sorted(glob.glob(base + ".san*"))[:4]:
+                try:
+                    sanlog += open(fn, errors="replace").read()[-4000:]
+                except OSError:
+                    pass
+            rec = {"case": bad, "returncode": rc, "stderr_tail": (err + "\n" + sanlog)[-9000:], "mark": mark,
                    "variant": shard.variant, "extra_env": shard.extra_env}
+            policy = getattr(load_check(cid), "crash_policy", None)
+            retries = shard.__dict__.setdefault("retries", {})
+            kcase = json.dumps(bad, sort_keys=True, default=str)
+            if rc != -999 and policy is not None and policy(rec) == "retry" and retries.get(kcase, 0) < 2:
+                # a death that the check attributes to the tool's runtime, not to the code under test: run the same case again (bounded)
+                retries[kcase] = retries.get(kcase, 0) + 1
+                shard.__dict__.setdefault("runtime_aborts", []).append({"rc": rc, "tail": rec["stderr_tail"][-600:]})
+                remaining = remaining[ndone:]
+                continue
             (timeouts if rc == -999 else crashes).append(rec)
             remaining = remaining[ndone + 1:]
         else:
@@ -282,6 +298,7 @@ def run_check(cid, tier="quick", seed=0, replay=None, only=None):
         for f in futs:
             f.result()
 
+    runtime_aborts = sum(len(sh.__dict__.get("runtime_aborts", [])) for sh in shards)
     # ---- decide
     known = load_known(prop)
     violations, known_hits = [], {}
@@ -397,6 +414,7 @@ def run_check(cid, tier="quick", seed=0, replay=None, only=None):
         "known_findings_seen": {k: {"n": h["n"], "what": h["entry"].get("what"), "first_witness": {a: b for a, b in h["first"].items() if a != "stderr_tail"}} for k, h in known_hits.items()},
         "violations_by_kind": seen_kinds,
         "inconclusive_reasons": inconclusive[:20],
+        "tool_runtime_aborts_retried": runtime_aborts,
     }
     coverage.update(cov_extra or {})
     if getattr(mod, "EXHAUSTIVE", False):
@@ -417,7 +435,8 @@ def run_check(cid, tier="quick", seed=0, replay=None, only=None):
             inconclusive.append("evidence does not validate: " + bad)
         with open(ev_path, "w") as f:
             json.dump(ev, f, indent=1, default=str)
-    shutil.rmtree(rundir, ignore_errors=True)
+    if not os.environ.get("VERIF_KEEP_RUN"):
+        shutil.rmtree(rundir, ignore_errors=True)
 
     print("%s tier=%s seed=%s cases=%d evaluations=%d distinct_nontrivial=%d wall=%.1fs" % (prop, tier, seed, len(cases), n_eval, len(keys), wall))
     brief = {k: v for k, v in obs_total.items() if isinstance(v, (int, float))}
